@@ -48,6 +48,46 @@ def check_cc_import(rep, rule):
                   what='import loads the named submodule')
 
 
+def fallback_rule(rep, prog):
+    """C09.fallback: a wrapper of the shape `try: return A.validate(n)  except X: return B.validate(n)` reaches B only when A fails with X.
+    A number that B accepts must therefore not be stopped in A by a gate of another class: every gate of A.validate() that raises
+    something other than X has to be a gate B.validate() has too (same test, sibling agreement) - B would reject the number anyway."""
+    n_ = 0
+    for mn in prog.number_modules():
+        m = prog.mods[mn]
+        v = m.funcs.get('validate')
+        if v is None:
+            continue
+        for t in ast.walk(v):
+            if not (isinstance(t, ast.Try) and len(t.handlers) == 1 and t.handlers[0].type is not None):
+                continue
+            def callee(body):
+                if len(body) == 1 and isinstance(body[0], ast.Return) and isinstance(body[0].value, ast.Call) and isinstance(body[0].value.func, ast.Attribute) \
+                        and body[0].value.func.attr == 'validate':
+                    r = prog.resolve_expr(m, body[0].value.func)
+                    return r if r and r[0] == 'func' else None
+                return None
+            a, b = callee(t.body), callee(t.handlers[0].body)
+            if not a or not b:
+                continue
+            X = src(t.handlers[0].type)
+            fa, fb = prog.mods[a[1]].funcs[a[2]], prog.mods[b[1]].funcs[b[2]]
+            btests = {src(i.test) for i in ast.walk(fb) if isinstance(i, ast.If)}
+            for i in ast.walk(fa):
+                if isinstance(i, ast.If) and any(isinstance(x, ast.Raise) for x in i.body):
+                    cls = next((src(x.exc.func if isinstance(x.exc, ast.Call) else x.exc) for x in i.body if isinstance(x, ast.Raise) and x.exc is not None), '')
+                    if cls == X:
+                        continue
+                    n_ += 1
+                    rep.check(src(i.test) in btests, 'C09.fallback', rel(prog.mods[a[1]].path), a[2], 'if %s' % src(i.test), i.lineno,
+                              '%s.validate() tries %s.validate() and falls back to %s.validate() only on %s; this gate of %s raises %s and %s has no such gate: '
+                              'a number it stops is never offered to %s although %s may accept it'
+                              % (mn.replace('stdnum.', ''), a[1].replace('stdnum.', ''), b[1].replace('stdnum.', ''), X, a[1].replace('stdnum.', ''), cls,
+                                 b[1].replace('stdnum.', ''), b[1].replace('stdnum.', ''), b[1].replace('stdnum.', '')),
+                              what='%s: gate raising %s is shared with %s' % (a[1].replace('stdnum.', ''), cls, b[1].replace('stdnum.', '')))
+    return n_
+
+
 def check(tier):
     from ..strabs.run import get_interp, dispatch_table, analyse_wrappers
     rep = Report('C09', tier, level='other',
@@ -263,6 +303,8 @@ def check(tier):
             okc = True
     rep.check(okc, 'C09.shape', 'stdnum/iban.py', 'validate', 'if check_country: _get_cc_module(...).validate(number)', v.lineno,
               'iban.validate() does not call the national validator of the number\'s country under check_country')
+    if fallback_rule(rep, get_interp().prog) < 2:
+        rep.error('C09.fallback found fewer than the 2 shared gates of be.bis / be.nn under be.ssn confirmed on the reference tree')
     rep.expect_at_least('C09.table', 100, 'dispatch table cells')
     rep.expect_at_least('C09.accepts', 60, 'wrapper/constituent relations')
     rep.not_decided = ['the equivalence itself for every string (only: no accepted constituent shape is rejected + results are returned through constituents)',
